@@ -79,7 +79,7 @@ def solve_lp(
     if any(matrix[i][-1] < -eps for i in range(m)):
         status, iters, matrix, basis, basis_set = _phase1(matrix, basis, basis_set, m, n, eps, max_iter)
         if status != Status.OPTIMAL:
-            return Result(tuple([0.0] * n), float("inf"), iters, iters, Status.INFEASIBLE)
+            return Result(tuple([0.0] * n), float("inf"), iters, iters, status)
         max_iter -= iters
     else:
         iters = 0
@@ -129,7 +129,9 @@ def _phase1(matrix, basis, basis_set, m, n, eps, max_iter):
     status, iters, matrix, basis, basis_set = _phase2(matrix, basis, basis_set, m, eps, max_iter)
 
     if matrix[-1][-1] < -eps:
-        return Status.INFEASIBLE, iters, matrix, basis, basis_set
+        # Infeasibility is proven only if phase 1 ran to optimality
+        verdict = Status.INFEASIBLE if status == Status.OPTIMAL else Status.MAX_ITER
+        return verdict, iters, matrix, basis, basis_set
 
     # Pivot out any artificial variables still in basis before removing columns
     n_cols = len(matrix[0])
